@@ -458,6 +458,11 @@ pub fn run(ctx: &Ctx) {
     // multi-page bitfields and deep trees in both directions
     random_stage(ctx, "dir1-big", ctx.tier.pick(24, 400), crate::props::c01::big_history_strategy, |ops: &Vec<Op>, local| run_writer_history_big(ops, local));
     random_stage(ctx, "dir2-big", ctx.tier.pick(48, 800), big_desc_strategy, |d: &StoreDesc, local| run_desc(d, local));
+    // sparse replicas of 2-4-page writers: blocks pages apart, replica-side clears across untouched pages
+    random_stage(ctx, "dir1-big-sessions", ctx.tier.pick(32, 600), crate::props::c08::page_gap_replica_strategy, |ops: &Vec<SOp>, local| {
+        local.class("big_sessions");
+        run_session(ops, local)
+    });
     let _ = (TREE, DATA, BITFIELD);
 }
 
